@@ -27,6 +27,7 @@ import vecir          # noqa: E402
 import inventory      # noqa: E402
 import fiatir         # noqa: E402
 import cfginv         # noqa: E402
+import hashinv        # noqa: E402
 from limbir import ItemSpec, TransErr   # noqa: E402
 
 CD = 'curve25519-dalek/src/'
@@ -83,6 +84,8 @@ def _fiat_items(n):
                  note='inputs: a, b, then the choice byte (asserted < 2)'),
         ItemSpec('conditional_assign', 'conditional_assign', trait='ConditionallySelectable', expect=(2 * n + 1, n),
                  note='inputs: self, rhs, then the choice byte (asserted < 2)'),
+        ItemSpec('conditional_swap', 'conditional_swap', trait='ConditionallySelectable', expect=(2 * n + 1, 2 * n),
+                 note='inputs: a, b, then the choice byte (asserted < 2); outputs: a then b after the swap'),
     ]
 
 
@@ -985,6 +988,9 @@ def run(repo, outdir, quiet=False):
     # feature-gated code inside function bodies: CfgInventory.lean (stand-alone module, not part of All.lean)
     cfg_sites, cfg_written = cfginv.generate(_inv['scans'], outdir, HEADER, write_if_changed)
     written.extend(cfg_written)
+    # hash / transcript input sequences: HashInventory.lean (stand-alone module)
+    hash_events, hash_written = hashinv.generate(_inv['scans'], outdir, HEADER, write_if_changed)
+    written.extend(hash_written)
 
     # All.lean
     mods = [m.name for m in MODULES] + ['Consts'] + [m.name for m in alggen.ALG_MODULES] \
@@ -1054,13 +1060,14 @@ def run(repo, outdir, quiet=False):
         'uncovered_fns': uncovered,
         'files': sorted(os.path.basename(x) for x in
                         [m.name + '.lean' for m in MODULES] + ['Consts.lean', 'All.lean', 'AllSh.lean',
-                                                               'gen_manifest.json', 'Inventory.lean', 'BranchInventory.lean', 'CfgInventory.lean']
+                                                               'gen_manifest.json', 'Inventory.lean', 'BranchInventory.lean', 'CfgInventory.lean', 'HashInventory.lean']
                         + [m.name + '.lean' for m in alggen.ALG_MODULES]
                         + [m.name + 'Sh.lean' for m in alggen.ALG_MODULES]
                         + [k + '.lean' for k, _ in alggen.K_MODULES]),
     }
     manifest.update(inv_manifest)
     manifest['cfg_gated_sites'] = len(cfg_sites)
+    manifest['hash_events'] = len(hash_events)
     manifest['cfg_gated_feature_sites_by_shape'] = dict((sh, sum(1 for x in cfg_sites if x['feature'] and x['shape'] == sh))
                                                         for sh in sorted(set(x['shape'] for x in cfg_sites if x['feature'])))
     p = os.path.join(outdir, 'gen_manifest.json')
